@@ -95,8 +95,13 @@ func registerHarnessIntrinsics() {
 			e.opaque["tracing"] = a[0].(*Term).IsTrue()
 			return &TupleV{}
 		},
-		"verifDependsOn": hDependsOn,
-		"verifUF":        hUF,
+		"verifDependsOn":  hDependsOn,
+		"verifUF":         hUF,
+		"verifTraceLeaks": hTraceLeaks,
+		"verifTraceClass": func(e *Exec, a []Value, s *ssa.CallCommon) Value {
+			e.traceClass = e.mustConcreteString(a[0], "trace class")
+			return &TupleV{}
+		},
 		"verifResultOwned": func(e *Exec, a []Value, s *ssa.CallCommon) Value {
 			// no object reachable from the value is a pool object, a package-level object or
 			// caller-owned (protected) memory
@@ -838,4 +843,41 @@ func hBytesSym(e *Exec, a []Value, s *ssa.CallCommon) Value {
 	}
 	arr := e.mkBytes(ts, e.newObj("nondet", name))
 	return &SliceV{arr: arr, off: e.c64(0), len: ln, cap: e.c64(int64(max + spare))}
+}
+
+// verifTraceLeaks(prefix): number of variable-time comparison events (string ==, !=, <,
+// map lookups keyed by strings, bytes.Equal / strings.* intrinsics) recorded while tracing in
+// which one operand depends on variables with the given prefix (attacker data) and the other
+// on secret-derived values (HMAC output, the code function, key bytes).
+func hTraceLeaks(e *Exec, a []Value, s *ssa.CallCommon) Value {
+	prefix := e.mustConcreteString(a[0], "attacker variable prefix")
+	n := 0
+	for _, ev := range e.varTime {
+		xa, xs := e.strDeps(ev.x, prefix)
+		ya, ys := e.strDeps(ev.y, prefix)
+		if (xa && ys) || (ya && xs) {
+			n++
+			e.notes = append(e.notes, fmt.Sprintf("LEAK: variable-time %s in %s compares attacker-controlled data with secret-derived data", ev.kind, ev.site))
+		}
+	}
+	return e.c64(int64(n))
+}
+
+func (e *Exec) strDeps(s *StrV, prefix string) (attacker, secret bool) {
+	if s == nil || s.arr == nil {
+		return
+	}
+	var ts []*Term
+	e.valueTerms(s, &ts, map[interface{}]bool{})
+	for _, t := range ts {
+		for _, sym := range e.symsOf(t) {
+			if strings.HasPrefix(sym, prefix) {
+				attacker = true
+			}
+			if strings.HasPrefix(sym, "uf:CODE") || strings.HasPrefix(sym, "uf:HMAC") || strings.HasPrefix(sym, "hmac") || strings.HasPrefix(sym, "key") {
+				secret = true
+			}
+		}
+	}
+	return
 }
